@@ -291,6 +291,15 @@ def _reference_payload(op):
     raise ValueError(k)
 
 
+def _canon(o):
+    """A JSON value with the type of every scalar made explicit."""
+    if isinstance(o, dict):
+        return ('obj', tuple(sorted((k, _canon(v)) for k, v in o.items())))
+    if isinstance(o, list):
+        return ('arr', tuple(_canon(v) for v in o))
+    return (type(o).__name__, repr(o))
+
+
 def execute(case):
     if case.get('mode') == 'c03_threaded':
         from . import C11
@@ -459,7 +468,10 @@ def execute(case):
                     res.bad('C03/send_json/cannot_inflate', str(e))
                     continue
             try:
-                if json.loads(payload.decode('utf-8')) != json.loads(op['json']):
+                got_obj = json.loads(payload.decode('utf-8'))
+                # JSON values, not Python equality: 1, true and 1.0 (0,
+                # false, 0.0 and -0.0) are different things on the wire
+                if _canon(got_obj) != _canon(json.loads(op['json'])):
                     raise ValueError('differs')
             except ValueError as e:
                 res.bad('C03/send_json/wrong_payload', '%r %s' % (payload[:60], e))
